@@ -225,11 +225,13 @@ def c07_scope(l: int, r: int, al: int, p1: int, p2: int, x: int, y: int, z: int,
     roles = [L, Rg, A, P1, P2]
     X, Y, Z = roles[x], roles[y], roles[z]
     stmt = ["gate", "h1", AI(X, Y), Z]
-    macro = ["macro", "m", P1, P2, ["sequential_block", stmt, ["gate", "n1", Z]]]
+    # `qs` is a single-qubit alias indexed by the let: inside the macro it still denotes Rg[<let value>], whatever a
+    # parameter of the same name as the let is bound to (the call passes 2, the let is 1)
+    macro = ["macro", "m", P1, P2, ["sequential_block", stmt, ["gate", "n1", Z], ["gate", "g1", "qs"]]]
     other = ["macro", "m2", "u", "w", ["parallel_block", stmt]]
-    call = ["gate", "m", Rg, 1]
+    call = ["gate", "m", Rg, 2]
     call2 = ["gate", "m2", 0, 0]
-    head = ["circuit", ["let", L, 1], ["register", Rg, 3], ["map", A, Rg, 1, 3, 1]]
+    head = ["circuit", ["let", L, 1], ["register", Rg, 3], ["map", A, Rg, 1, 3, 1], ["map", "qs", Rg, L]]
     if where == 0:
         sx = head + [macro, stmt, call]
     elif where == 1:
